@@ -141,6 +141,9 @@ func c08Random(c *Case) {
 		return
 	}
 	src := xref.Render(e)
+	if c.Index%4 == 0 && !c.scalarCheckMany(e, []*xdoc.Node{ctx, d.Nodes[g.Intn(len(d.Nodes))], d.Nodes[g.Intn(len(d.Nodes))], ctx}) {
+		return // (one compiled expression at several context nodes)
+	}
 	if f, isNum := want.(float64); isNum && xgen.FiniteSmall(f) && g.Chance(0.5) {
 		if _, ok := c.scalarCheck(xref.Call{Name: "string", Args: []xref.Expr{e}}, ctx, "ABORT"); !ok {
 			return
@@ -318,6 +321,27 @@ func c09Random(c *Case) {
 	c.Count("rand")
 	if !ok || want == nil {
 		return
+	}
+	if c.Index%3 == 0 {
+		// the same compiled expression at other context nodes: nothing of the first evaluation may be remembered
+		if !c.scalarCheckMany(e, []*xdoc.Node{ctx, d.Nodes[g.Intn(len(d.Nodes))], d.Nodes[g.Intn(len(d.Nodes))], ctx}) {
+			return
+		}
+		// ... and as the value every candidate of a step is tested with
+		pred := xref.Path{Abs: true, Steps: []*xref.Step{xgen.DSlash(), {Axis: "child", Abbrev: "child", Test: xref.Test{Kind: "*"},
+			Preds: []xref.Expr{xref.Bin{Op: ">", L: xref.Call{Name: "string-length", Args: []xref.Expr{xref.Call{Name: "string", Args: []xref.Expr{e}}}}, R: xref.Num{Lex: fmt.Sprint(g.Intn(3))}}}}}}
+		if !c.expensive(pred, d) {
+			if wantNS, okNS, _ := refNodeSet(pred, xref.NewCtx(d.Root)); okNS {
+				if pce := c.compile(xref.Render(pred), func() map[string]interface{} { return docDetail(d, d.Root) }); pce != nil {
+					if _, good := c.checkSelectSet(pce, xref.Render(pred), d.Root, wantNS); !good {
+						return
+					}
+					c.Count("string-function-per-candidate")
+				} else {
+					return
+				}
+			}
+		}
 	}
 	if nontrivialValue(want) {
 		c.Nontrivial(fmt.Sprintf("%s|%d|%d", xref.Render(e), c.Index/8, ctx.Ord))
